@@ -213,11 +213,11 @@ add("m05b", ["C05", "C11"], (P, """            if critical_failure:
 add("m05d", ["C05"], (P, """                    critical_failure = critical_failure \\
                         or done_job.is_critical()""", """                    critical_failure = critical_failure \\
                         and done_job.is_critical()"""), rules=["R05.1"])
-add("m05e", ["C05", "C06"], (P, """                if done_job.raised_exception():
+add("m05e", ["C05", "C06"], (P, """                if done_job.raised_exception() is not None:
                     critical_failure = critical_failure \\
                         or done_job.is_critical()""", """                critical_failure = critical_failure \\
                     or done_job.is_critical()
-                if done_job.raised_exception():"""), rules=["R05.1", "R06.1"])
+                if done_job.raised_exception() is not None:"""), rules=["R05.1", "R06.1"])
 add("m05e2", ["C05", "C06"], (P, """                    critical_failure = critical_failure \\
                         or done_job.is_critical()""", """                    critical_failure = True"""), rules=["R05.1", "R06.1"])
 add("m05f", ["C05", "C08", "C09", "C11"], (P, """            for task in pending:
@@ -541,10 +541,10 @@ add("m14i", ["C14", "C06"], (P, """        await asyncio.gather(*exception_tasks
         for task in exception_tasks:
             task._job._task = None
 """), rules=["R14.2", "R06.4"])
-add("m06a", ["C06", "C05"], (P, """                if done_job.raised_exception():
-                    critical_failure = critical_failure \\""", """                if done_job.raised_exception() and not self.verbose:
+add("m06a", ["C06", "C05"], (P, """                if done_job.raised_exception() is not None:
+                    critical_failure = critical_failure \\""", """                if done_job.raised_exception() is not None and not self.verbose:
                     critical_failure = True
-                if done_job.raised_exception():
+                if done_job.raised_exception() is not None:
                     critical_failure = critical_failure \\"""), rules=["R06.1", "R05.1"])
 add("m06b", ["C06", "C02"], (P, "            nb_jobs_done += len(done_jobs_not_forever)", "            nb_jobs_done += len([t for t in done_jobs_not_forever if not t._exception])"),
     rules=["R06.1", "R06.3", "R02.1"])
@@ -558,7 +558,7 @@ add("m06d", ["C06"], (P, """            if critical_failure:
                 return False
             if critical_failure:
                 await self._tidy_tasks(pending)"""), rules=["R06.1"], note="aborts after many non-critical failures")
-add("b09", ["C06", "C05", "C02"], (P, """            done_ok = {t for t in done if not t._exception}
+add("b09", ["C06", "C05", "C02"], (P, """            done_ok = {t for t in done if t._exception is None}
             await self._feedback(done_ok, "DONE")
             done_ko = done - done_ok
             await self._feedback(done_ko, "RAISED EXC.")
@@ -922,13 +922,13 @@ add("b30", ALLRUN, (P, """            if not done:
 add("b31", ALLRUN, (P, """            critical_failure = False
             for done_task in done:
                 done_job = done_task._job               # pylint: disable=W0212
-                if done_job.raised_exception():
+                if done_job.raised_exception() is not None:
                     critical_failure = critical_failure \\
                         or done_job.is_critical()
 """, """            critical_failure = False
             for done_task in done:
                 done_job = done_task._job               # pylint: disable=W0212
-                if done_job.raised_exception():
+                if done_job.raised_exception() is not None:
                     if done_job.is_critical():
                         critical_failure = True
 """), expect='silent')
@@ -1180,3 +1180,10 @@ add("m13y", ["C13"], (J, "        if self.coshutdown:\n", "        if self.coshu
     note="only jobs that completed are shut down")
 add("m13z", ["C13"], (J, "        if self.coshutdown:\n", "        if not self.is_scheduled():\n            return None\n        if self.coshutdown:\n"), rules=["R13.9"])
 add("b13y", ["C13"], (J, "        if self.coshutdown:\n", "        if self.coshutdown is not None:\n"), expect='silent')
+
+# ------------------------------------------------------------------ F14: an exception object is not a boolean
+add("m05t", ["C05", "C02", "C04"], (P, "                if done_job.raised_exception() is not None:\n", "                if done_job.raised_exception():\n"),
+    rules=["R05.8", "R02.7", "R04.8"], note="F14 reverted (run)")
+add("m04u", ["C04", "C05"], (S, "                if exc is not None:\n", "                if exc:\n"), rules=["R04.8", "R05.8"], note="F14 reverted (nested form)")
+add("b05t", ["C05", "C02", "C04", "C06"], (P, "                if done_job.raised_exception() is not None:\n",
+                                         "                failure = done_job.raised_exception()\n                if failure is not None:\n"), expect='silent')
